@@ -131,11 +131,8 @@ Section Integrator.
     | t :: _ =>
         let tp' := if negb (Qeq_bool t (i_t0 ig)) then i_t0 ig :: tp else tp in
         match solve_ivp p (i_y0 ig) tp' with
-        | IOk tc =>
-            match rev tc with
-            | (tl, yl) :: _ => (mkInteg tl yl (i_orig ig), IOk tc)
-            | [] => (ig, IRaiseIndex)
-            end
+        | IOk tc =>                                    (* self.t0 = t[-1]; self.y0 = y[-1] *)
+            (mkInteg (lastq (map fst tc) (i_t0 ig)) (last (map snd tc) (i_y0 ig)) (i_orig ig), IOk tc)
         | r => (ig, r)
         end
     end.
